@@ -214,7 +214,7 @@ Qed.
 Theorem match_schc_packet_dispatch rules r rest : prefix_free rules -> In r rules ->
   match_schc_packet rules (rule_id r ++ rest) = Ok r.
 Proof.
-  intros PF I. unfold match_schc_packet. destruct rules as [|r0 rules0] eqn:ER; [destruct I|]. rewrite <- ER in *.
+  intros PF I. unfold match_schc_packet.
   rewrite match_schc_loop_find.
   destruct (find (fun r' => is_prefix (rule_id r') (rule_id r ++ rest)) rules) as [r'|] eqn:F.
   - apply find_some in F as [I' P]. apply is_prefix_comparable in P as [P|P].
@@ -223,10 +223,10 @@ Proof.
   - pose proof (find_none _ _ F r I) as N. cbv beta in N. rewrite is_prefix_app in N. discriminate.
 Qed.
 
-Theorem match_schc_packet_none rules s : rules <> [] ->
+Theorem match_schc_packet_none rules s :
   (forall r, In r rules -> is_prefix (rule_id r) s = false) -> match_schc_packet rules s = Exc RuleIDMatchError.
 Proof.
-  intros NE H. unfold match_schc_packet. destruct rules as [|r0 rules0] eqn:ER; [contradiction|]. rewrite <- ER in *.
+  intros H. unfold match_schc_packet.
   rewrite match_schc_loop_find.
   destruct (find (fun r' => is_prefix (rule_id r') s) rules) as [r'|] eqn:F; [|reflexivity].
   apply find_some in F as [I' P]. rewrite (H r' I') in P. discriminate.
@@ -234,7 +234,7 @@ Qed.
 
 Theorem match_schc_packet_sound rules s r : match_schc_packet rules s = Ok r -> In r rules /\ is_prefix (rule_id r) s = true.
 Proof.
-  unfold match_schc_packet. destruct rules as [|r0 rules0] eqn:ER; [discriminate|]. rewrite <- ER in *.
+  unfold match_schc_packet.
   rewrite match_schc_loop_find.
   destruct (find (fun r' => is_prefix (rule_id r') s) rules) as [r'|] eqn:F; [|discriminate].
   intros H. inversion H; subst r'. apply find_some in F. exact F.
@@ -245,7 +245,7 @@ Theorem match_schc_packet_first rules s r : match_schc_packet rules s = Ok r ->
   exists pre post, rules = pre ++ r :: post /\ is_prefix (rule_id r) s = true /\
                    forall r', In r' pre -> is_prefix (rule_id r') s = false.
 Proof.
-  unfold match_schc_packet. destruct rules as [|r0 rules0] eqn:ER; [discriminate|]. rewrite <- ER. clear ER.
+  unfold match_schc_packet.
   rewrite match_schc_loop_find.
   destruct (find (fun r' => is_prefix (rule_id r') s) rules) as [r'|] eqn:F; [|discriminate].
   intros H. inversion H; subst r'. clear H. revert F.
@@ -410,9 +410,9 @@ Proof.
   unfold cm_compress. rewrite HP. cbn [bind match_packet_descriptor best_loop]. destruct st; reflexivity.
 Qed.
 
-Theorem cm_decompress_noid ct rules s d : rules <> [] ->
+Theorem cm_decompress_noid ct rules s d :
   (forall r, In r rules -> is_prefix (rule_id r) s = false) -> cm_decompress ct rules s d = Exc RuleIDMatchError.
-Proof. intros NE H. unfold cm_decompress. rewrite match_schc_packet_none by assumption. reflexivity. Qed.
+Proof. intros H. unfold cm_decompress. rewrite match_schc_packet_none by assumption. reflexivity. Qed.
 
 Theorem cm_decompress_dispatch ct rules r rest d : prefix_free rules -> In r rules ->
   cm_decompress ct rules (rule_id r ++ rest) d = decompress ct (rule_id r ++ rest) r d.
